@@ -19,6 +19,7 @@ func init() {
 		Explanation: "R1 naming: extractsev.GCETcbObjectName / extracttdx.GCETcbObjectName / verify.GCETcbURL are built only from string constants and the parameter, the measurement enters only through hex.EncodeToString, and the SEV and TDX technology segments are different constants of the form <tech>/%s.binarypb. " +
 			"R2 fetch only for full-length measurements: every HTTPSGetter.Get in extract, verify and gcetcbendorsement whose URL derives from GCETcbURL — the origins of its object-name operand are enumerated; each origin that is a GCETcbObjectName(m) call must, at its own site, be dominated by the equal edge of a comparison of len(m) with 48 for that same m; a constant (empty) origin requires the Get to be dominated by name != \"\"; any other origin is a violation. " +
 			"R3 local first, verbatim (ESP on extract.Endorsement): no Get on a path where event-log evidence or quote evidence was found and ForceFetch is known false; returned evidence is the callee's result value itself. " +
+			"R3c with ForceFetch known true, extract.Endorsement returns success only after a successful network Get (a forced fetch never degrades to local evidence). " +
 			"R3b in the event-log lookup at most one locator is resolved per call (the first match in precedence order decides; a failed local locator does not fall through to the network one). R4 confinement: in extract/eventlog every os file access takes a path produced by securejoin.SecureJoin rooted at the reader's Root (error checked). " +
 			"R5 emitted events: both SP800-155 events are built with one GUID value; the URI locator is GCETcbURL of a name derived from hex(golden digest). " +
 			"Not covered: parse-back equality of emitted events, symlink behaviour (securejoin trusted), the URL the firmware itself emitted in an event log (exel.Locate fetches it as is).",
@@ -295,6 +296,44 @@ func runC16(c *Ctx) {
 		c.S.Floor("R3", "local evidence lookups in extract.Endorsement", 2, nLocal)
 		if n == 0 {
 			c.S.OK("R3", "extract.Endorsement:local first", c.pos(end.Pos()), fmt.Sprintf("no fetch when local evidence was found and ForceFetch is false (%d configurations)", e.Configs), true)
+		}
+		// R3c: with the fetch forced, success comes from the network only (local evidence is not handed back as if
+		// it had been fetched).
+		{
+			const bGetOk uint = 0
+			r2 := &esp.Rule{Name: "C16.R3c", Flag: r.Flag, Relevant: r.Relevant}
+			r2.Match = func(in ssa.Instruction) []esp.Ev {
+				if v, ok := in.(*ssa.Call); ok {
+					if g := v.Call.StaticCallee(); g != nil && r.Relevant(g) {
+						return nil
+					}
+					if isGetterGet(v) {
+						return []esp.Ev{{ID: 0, Name: "network Get", ErrIdx: errIndex(v.Call.Signature()), BoolIdx: -1}}
+					}
+				}
+				return nil
+			}
+			r2.Step = func(x *esp.Ctx, s esp.State, ev esp.Ev, ph esp.Phase) (esp.State, string) {
+				if ev.ID == 0 && ph == esp.Ok {
+					return s.Set(bGetOk), ""
+				}
+				return s, ""
+			}
+			ei := errIndex(end.Signature)
+			r2.AtReturn = func(x *esp.Ctx, s esp.State, rets []esp.Abs) string {
+				if ei < 0 || ei >= len(rets) || rets[ei] == esp.NonZero {
+					return ""
+				}
+				if s.Flag(0) == esp.NonZero && !s.Has(bGetOk) {
+					return "R3c: with ForceFetch set, Endorsement may succeed without a successful network fetch: local evidence is returned as if it had been fetched"
+				}
+				return ""
+			}
+			e2 := c.engine(r2)
+			e2.Run(end, esp.State{})
+			if c.reportEngine(e2, "R3c", func(v *esp.Violation) string { return "extract.Endorsement:forced fetch" }) == 0 {
+				c.S.OK("R3c", "extract.Endorsement:forced fetch", c.pos(end.Pos()), fmt.Sprintf("every successful return with ForceFetch known true follows a successful Get (%d configurations)", e2.Configs), true)
+			}
 		}
 		// verbatim: returned byte slices are call results (or φ of them), never transformed
 		okVerb := true
